@@ -146,6 +146,10 @@ func (cs *caseState) report(symptom, kind, detail string) {
 
 func settings(cfg Config, kind, t string) []erpc.MessageSetting {
 	s := []erpc.MessageSetting{erpc.WithBodyCodec(tok.CodecID(kind)), erpc.WithSetMeta("Tok", t), erpc.WithSetMeta("M1", tok.MetaVal(t, 1))}
+	// some messages end their metadata with a pair whose value is empty (token-determined), others carry a value there
+	if v := tok.TailMeta(t); v != "-" {
+		s = append(s, erpc.WithSetMeta("Ztail", v))
+	}
 	if cfg.Pipe != "" {
 		s = append(s, erpc.WithXferPipe([]byte(cfg.Pipe)...))
 	}
@@ -188,6 +192,12 @@ func (cs *caseState) checkReply(kind, t string, cmd erpc.CallCmd, arg interface{
 	}
 	if got := string(im.Peek("R1")); got != tok.MetaVal(t, 2) {
 		cs.report("caller-meta-foreign", kind, fmt.Sprintf("token %q: reply metadata R1=%q want %q", t, got, tok.MetaVal(t, 2)))
+		return
+	}
+	if want := tok.TailMeta("R:" + t); want != "-" {
+		if got := string(im.Peek("Ztail")); got != want {
+			cs.report("caller-meta-foreign", kind, fmt.Sprintf("token %q: last reply metadata pair Ztail=%q, the handler set %q", t, got, want))
+		}
 	}
 }
 
